@@ -48,6 +48,10 @@ C19_Drift(c, r) == IF "tris" \in DOMAIN r /\ ~TriangulationOK(RectSeq(c), TriSeq
 ExactInBinary(c) == \/ c.den \in {1, 2, 4, 8, 16, 32, 64}
                     \/ /\ \A i \in DOMAIN c.rects : \A j \in 1..4 : c.rects[i][j] % c.den = 0
                        /\ \A j \in 1..2 : c.s[j] % c.den = 0 /\ c.e[j] % c.den = 0
+\* the outline handed to the spline fitter is copied from the rectangles (no arithmetic): predicted exactly on any grid
+PolySeq(r) == [i \in DOMAIN r.poly |-> Pt(r.poly[i])]
+Poly_L3(c, r) == IF "poly" \in DOMAIN r /\ Len(c.rects) <= 24 /\ PolySeq(r) # MergeRects(RectSeq(c))
+                 THEN {"L3_MergeRectsAsModelled"} ELSE {}
 C19_L3Applies(c, r) == c.kind = "shortest" /\ r.exact = 1 /\ ExactInBinary(c) /\ Len(c.rects) <= 24
 C19_L3(c, r) ==
     IF C19_L3Applies(c, r)
@@ -90,8 +94,8 @@ C20_NonTrivial(c, r) == IF c.kind = "solve" THEN Len(r.miss) >= 2 ELSE Len(r.pie
 \* ------------------------------------------------------------------ dispatch
 Applies(P, c, r) == CASE P = "C19" -> C19_Applies(c, r)
                       [] P = "C20" -> C20_Applies(c, r)
-Fail(P, c, r) == CASE P = "C19" -> C19_Fail(c, r) \cup C19_Drift(c, r) \cup C19_L3(c, r)
-                   [] P = "C20" -> C20_Fail(c, r)
+Fail(P, c, r) == CASE P = "C19" -> C19_Fail(c, r) \cup C19_Drift(c, r) \cup C19_L3(c, r) \cup Poly_L3(c, r)
+                   [] P = "C20" -> C20_Fail(c, r) \cup (IF c.kind = "fit" THEN Poly_L3(c, r) ELSE {})
 NonTrivial(P, c, r) == CASE P = "C19" -> C19_NonTrivial(c, r)
                          [] P = "C20" -> C20_NonTrivial(c, r)
 Violations(c, r) == UNION {IF Applies(P, c, r) THEN {<<P, cl>> : cl \in Fail(P, c, r)} ELSE {} : P \in Props}
